@@ -447,6 +447,7 @@ import mir_jobs_auth    # noqa: E402,F401  (registers the access rule evaluation
 import mir_jobs_subintent    # noqa: E402,F401  (registers the subintent structure job)
 import mir_jobs_account    # noqa: E402,F401  (registers the account deposit jobs)
 import mir_jobs_addr    # noqa: E402,F401  (registers the address codec jobs)
+import mir_jobs_worktop    # noqa: E402,F401  (registers the worktop jobs)
 
 
 def _index():
